@@ -15,7 +15,8 @@
   * `multiUpstreamProxy.ServeHTTP` after mux's clean-path check, including the final
     catch-all of `registerTrailingSlashHandler`          → `Upstream.route`
   * `url.ParseQuery`, `url.Values.Add/Encode`, `splitPathAndQuery`, `rewritePath`
-                                → `parseQuery`, `Values.add`, `encode`, `rewriteQuery`, …
+            → `parseQuery`, `Values.add`, `encode`, `rewriteQuery`, `rewriteError`,
+              `upstreamRequestURI?` (`none` = 500 error page, nothing forwarded), …
   * `setProxyDirector` + `url.URL.RequestURI()`          → `outgoingTarget`
 
   What is a PARAMETER (never modelled)
@@ -251,11 +252,20 @@ def parseQuery (unesc : Str → Option Str) (s : Str) : List (Str × Str) × Boo
 def urlQuery (unesc : Str → Option Str) (rawQuery : Str) : Values :=
   Values.ofPairs (parseQuery unesc rawQuery).1
 
-/-- `splitPathAndQuery(originalQuery, raw)` at the level of `Values`:
-    returns the new path and the merged values.
-    BUG-LIKE behaviour kept on purpose: when the target's query does not parse the Go code
-    executes `return "", "", nil` — empty path, empty query, *no error* — so the caller carries on
-    with an empty path.  Modelled as `([], [])`. -/
+/-- the `error` result of `splitPathAndQuery(originalQuery, raw)`: non-nil iff `raw` has a query
+    part and `url.ParseQuery` rejects it (a `;` or a bad `%`-escape in some piece).
+    History: before the `fix:` commit "report an unparseable rewritten query …" the code executed
+    `return "", "", nil` here, so the caller carried on with an empty path and the upstream received
+    `/`; now it is `return "", "", err` and `rewritePath` answers with the 500 error page. -/
+def rewriteError (unesc : Str → Option Str) (newURI : Str) : Bool :=
+  match splitFirst '?' newURI with
+  | (_, none) => false
+  | (_, some q) => (parseQuery unesc q).2
+
+/-- the (path, values) results of `splitPathAndQuery(originalQuery, raw)` at the level of `Values`:
+    the new path and the merged values.  When `rewriteError` holds the Go code returns
+    `"", "", err`: modelled as `([], [])` here (the values are then never used, see
+    `upstreamRequestURI?`). -/
 def rewriteQuery (unesc : Str → Option Str) (orig : Values) (newURI : Str) : Str × Values :=
   match splitFirst '?' newURI with
   | (p, none) => (p, orig)
@@ -315,6 +325,18 @@ def outgoingHost (passHostHeader : Option Bool) (incomingHost targetHost : Str) 
 def upstreamRequestURI (esc : Str → Str) (unesc : Str → Option Str) (escPath : Str → Str)
     (u : Upstream) (requestURI newURI : Str) : Str :=
   if u.isRewrite then rewriteRequestURI esc unesc escPath requestURI newURI else requestURI
+
+/-- What the `rewritePath` middleware hands on: `none` = it rendered the 500 error page
+    ("Could not parse rewrite URI") and the request is NOT forwarded; `some t` = the request goes on
+    to the upstream handler with `req.RequestURI = t`.  (The other error exit of `rewritePath`,
+    `url.ParseRequestURI(req.RequestURI)` failing, cannot happen for a request that `net/http`'s
+    server accepted, because the server parses the target with the same function.) -/
+def upstreamRequestURI? (esc : Str → Str) (unesc : Str → Option Str) (escPath : Str → Str)
+    (u : Upstream) (requestURI newURI : Str) : Option Str :=
+  if u.isRewrite then
+    (if rewriteError unesc newURI then none
+     else some (rewriteRequestURI esc unesc escPath requestURI newURI))
+  else some requestURI
 
 /-! ## Concrete escaping (for the driver; theorems are parametric in `esc`/`unesc`) -/
 
